@@ -246,7 +246,8 @@ where
         if self.len() < range.end {
             return None;
         }
-        if range.is_empty() {
+        // NOTE: An integer no less than alph_size never occurs.
+        if range.is_empty() || self.alph_size() <= val {
             return Some(0);
         }
 
@@ -298,6 +299,10 @@ where
     /// ```
     #[inline(always)]
     pub fn select(&self, k: usize, val: usize) -> Option<usize> {
+        // NOTE: An integer no less than alph_size never occurs.
+        if self.alph_size() <= val {
+            return None;
+        }
         self.select_helper(k, val, 0, 0)
     }
 
@@ -310,7 +315,7 @@ where
         depth: usize,
     ) -> Option<usize> {
         if depth == self.alph_width() {
-            return Some(pos + k);
+            return pos.checked_add(k);
         }
         let bit = Self::get_msb(val, depth, self.alph_width());
         let layer = &self.layers[depth];
